@@ -4,7 +4,7 @@
 cd /verif
 names=${@:-$(ls seeded)}
 for name in $names; do
-  d=seeded/$name
+  d=/verif/seeded/$name
   prop=$(python3 -c "import json;print(json.load(open('$d/meta.json'))['property'])")
   if ! git -C /repo apply --check $d/patch.diff 2>/dev/null; then
     python3 - "$d" <<'PY'
